@@ -226,6 +226,12 @@ def units(tier):
         it.name = it.name.replace('c04_', 'c11_pointer_array_')
         it.prop = PROP
         insts.append(it)
+    # a callback passed as an argument reaches the sandbox as the entry point the backend issued (contract of C13)
+    from . import C13
+    it = [i for i in C13.owner_insts(tier) if i.name == 'c13_owner_hands_the_sandbox_its_entry_point'][0]
+    it.name = 'c11_callback_argument_is_its_entry_point'
+    it.prop = PROP
+    insts.append(it)
     return [Unit('C11_invoke', insts)]
 
 
